@@ -264,6 +264,46 @@ func c19RealSocket(c *vf.Case) {
 		}
 		c.Count("items_written_real_socket", 1)
 	}
+	// a chain of small items of different sizes, each written from the completion callback of the one before (the
+	// writes complete inline until the chain reaches the dispatch limit and the next one goes through the poller)
+	if !c.Failed() && r.Bool() {
+		nchain := r.Range(34, 90)
+		items := make([][]byte, nchain)
+		for i := range items {
+			items[i] = r.Bytes(r.Range(1, 300))
+			want = append(want, c19Encode(items[i])...)
+		}
+		done := make([]int, nchain)
+		var cerr error
+		var next func(i int)
+		next = func(i int) {
+			if i == nchain {
+				return
+			}
+			conn.AsyncWriteNext(items[i], func(e error, _ int) {
+				done[i]++
+				if e != nil && cerr == nil {
+					cerr = e
+				}
+				if e == nil {
+					next(i + 1)
+				}
+			})
+		}
+		next(0)
+		for guard := 0; done[nchain-1] == 0 && cerr == nil && guard < 20000; guard++ {
+			d, _, _ := rawpeer.Drain(o.Peer, 1<<20)
+			peerGot = append(peerGot, d...)
+			w.Poll()
+		}
+		for i, k := range done {
+			if k != 1 || cerr != nil {
+				c.Failf("chained-write-callback-count/real-socket", "chain of %d items written from each other's completion callbacks: item %d (%d bytes) completed %d times, first error %v", nchain, i, len(items[i]), k, cerr)
+				return
+			}
+		}
+		c.Count("items_written_in_callback_chains", nchain)
+	}
 	dl := time.Now().Add(10 * time.Second)
 	for len(peerGot) < len(want) && time.Now().Before(dl) {
 		d, _, _ := rawpeer.Drain(o.Peer, 1<<24)
@@ -538,7 +578,7 @@ func init() {
 	register(&vf.Check{
 		ID:        "C19",
 		Technique: "runtime monitor over a scripted in-memory transport: item sequences compared with the generated payload list under every cut offset / random cuts / byte-at-a-time / would-block mid-item, transport bytes and destination buffer inspected after every write, Cap() watched on hostile prefixes; plain build",
-		Rule: "a third of the read runs write every item back with WriteNext exactly as it was handed over; one item in about a hundred has 150 KiB - 1 MiB; " +
+		Rule: "every other real-socket case ends with a chain of 34-90 items of 1-300 bytes, each written from the completion callback of the one before (across the dispatch limit); a third of the read runs write every item back with WriteNext exactly as it was handed over; one item in about a hundred has 150 KiB - 1 MiB; " +
 			"cases = read direction (1-12 payloads of sizes {0,1,3,4,5,255,600,4096,65536,random}, wire cut at EVERY offset when <=300 bytes, else random cuts incl. inside a length prefix, plus coalesced and byte-at-a-time; blocking and asynchronous, all-at-once and incremental feeding), write direction (WriteNext/AsyncWriteNext over transports accepting 1/3/7/64/all bytes per write, inline/deferred, transport temporarily not writable), hostile input (declared length limit+1, 2^31, 2^32-1, random bytes; after 0-2 valid items); " +
 			"every case is non-trivial; distinct = (direction, API, split class or write behaviour, size classes)",
 		Assumptions: []string{
